@@ -88,7 +88,10 @@ def mark_loop_effects(eng, con, k_ord):
 
 
 def check_loop_effects(eng, con, k_ord, start, tag, line):
-    """the body of the arbitrary iteration only emitted declared effects (obligation loop-effects:)"""
+    """the body of the arbitrary iteration only emitted declared effects (obligation loop-effects:); a loop without
+    loop<K>_effects declaration falls under the other discipline (_note_loop_effects: later effect queries unknown)"""
+    if not declared_effects(con, k_ord):
+        return
     extra = sorted({nme for nme, _ in eng.effects[start:]} - set(declared_effects(con, k_ord)))
     if extra:
         eng.run.oblige(f'loop-effects:{tag}', 'inv', False, line,
@@ -169,6 +172,15 @@ def _body_frame(eng, mods, head_heap, mark, tag, line):
             eng.run.oblige(f'loop-frame:{name}/{tag}', 'frame', z3.And(claims) if len(claims) > 1 else claims[0], line)
 
 
+def _note_loop_effects(eng, tag, n_eff, declared=()):
+    if declared:
+        return
+    if len(eng.effects) > n_eff:
+        if not hasattr(eng.run, 'loop_emits'):
+            eng.run.loop_emits = set()
+        eng.run.loop_emits.add(tag)
+
+
 def symbolic_for(eng, s, fr, it):
     spec, k_ord, con = find_spec(eng, fr, s)
     if spec is None or 'inv' not in spec:
@@ -184,9 +196,14 @@ def symbolic_for(eng, s, fr, it):
     is_list = isinstance(it, (ListV, ZipV))
     if isinstance(it, DictV):
         it = ValuesView(it, 'keys')
+    if is_list and (isinstance(s.iter, ast.ListComp) or (isinstance(s.iter, ast.Call) and isinstance(s.iter.func, ast.Name)
+                                                          and s.iter.func.id in ('list', 'sorted', 'sum'))):
+        # the iterated list is an anonymous temporary built by the loop header: nothing else can reference it, so it is
+        # read in the heap of the loop entry whatever the body (or the callees it calls) writes
+        it = eng.pin(it, entry_heap)
     if is_list:
         n = eng.seq_len_term(it)
-        ghost0 = {'k': 0, 'loop_old': loop_old}
+        ghost0 = {'k': 0, 'loop_old': loop_old, 'seq': it}
     else:
         ety = eng.elem_type(it) if not (isinstance(it, ValuesView) and it.what == 'items') else it.d.kty
         so = sort_of(it.d.kty if isinstance(it, ValuesView) else ety)
@@ -204,7 +221,7 @@ def symbolic_for(eng, s, fr, it):
     if is_list:
         k = eng.run.fresh('k', I)
         eng.run.assume(z3.And(0 <= k, k <= n))
-        ghost = {'k': SV(k, INT), 'loop_old': loop_old}
+        ghost = {'k': SV(k, INT), 'loop_old': loop_old, 'seq': it}
         eng.run.assume(_clause(eng, con, spec['inv'], fr, ghost))
         more = k < n
     else:
@@ -222,8 +239,8 @@ def symbolic_for(eng, s, fr, it):
         more = z3.Exists([x], z3.And(coll_chi[x], z3.Not(seen[x])))
     if eng.run.decide(more):
         if is_list:
-            elem = eng.seq_get(it, k)
-            ghost_next = {'k': SV(k + 1, INT), 'loop_old': loop_old}
+            elem = eng.pin(eng.seq_get(it, k), None)     # the element itself lives in the current heap
+            ghost_next = {'k': SV(k + 1, INT), 'loop_old': loop_old, 'seq': it}
         else:
             e = eng.run.fresh('elem', so)
             eng.run.assume(z3.And(coll_chi[e], z3.Not(seen[e])))
@@ -236,19 +253,38 @@ def symbolic_for(eng, s, fr, it):
                 elem = kv
             ghost_next = {'seen': SymSet(z3.Store(seen, e, True), keyty), 'loop_old': loop_old}
         eng.bind_target(s.target, elem, fr, s.lineno)
+        # per-iteration clause loop<K>_iter: proved at the end of one arbitrary iteration started under the invariant;
+        # iter_old = locals/heap at the start of that iteration, effect vocabulary relative to that iteration
+        iter_old = OldNS(dict(fr.vars), eng.heap.snapshot())
+        n_eff = len(eng.effects)
         try:
             try:
                 eng.exec_block(s.body, fr)
             finally:
                 check_loop_effects(eng, con, k_ord, fx_start, tag, s.lineno)
         except BreakEx:
+            _note_loop_effects(eng, tag, n_eff, declared_effects(con, k_ord))
             return     # leaves the loop from an arbitrary iteration satisfying the invariant
         except ContinueEx:
             pass
+        _note_loop_effects(eng, tag, n_eff, declared_effects(con, k_ord))
+        if 'iter' in spec:
+            saved_base = eng.effects_base
+            eng.effects_base = eng.effects[:n_eff]
+            try:
+                it_ghost = dict(ghost_next)
+                it_ghost['iter_old'] = iter_old
+                eng.run.oblige(f'loop-iter:{tag}', 'inv', _clause(eng, con, spec['iter'], fr, it_ghost), s.lineno)
+            finally:
+                eng.effects_base = saved_base
         eng.run.oblige(f'loop-preserve:{tag}', 'inv', _clause(eng, con, spec['inv'], fr, ghost_next), s.lineno)
         _body_frame(eng, mods, head_heap, mark, tag, s.lineno)
         raise PathEnd()
-    # 3. exit: invariant with everything processed
+    # 3. exit: invariant with everything processed.  The python-level effect log of this path does not contain what
+    # the iterations emitted: when some explored iteration emitted an effect (the iteration paths of a loop are explored
+    # before its exit path: depth-first, `more` branch first), later effect queries are refused (see bi_no_effect)
+    if tag in getattr(eng.run, 'loop_emits', ()):
+        eng.effects_unknown = tag
     if not is_list:
         eng.run.assume(z3.ForAll([x], seen[x] == coll_chi[x]))
     # the loop variable keeps the last element (or its previous binding when the collection is empty)
